@@ -385,7 +385,7 @@ func runStats(in term.T) term.T {
 // ---- generator ----
 
 var statProps = []int64{5, 6, 7, 8, 1, 2, 3, 90, 91, 17}
-var statFlags = []int64{100, 103}
+var statFlags = []int64{100, 103, 4, 36} // incl. flags 32 and 96 apart (4, 36, 100)
 var statDmg = []int64{1, 3}
 
 // amounts: exactly representable values (sums of a few of them are exact) and awkward ones
